@@ -67,7 +67,7 @@ func c08Load(src string) c08Loaded {
 	select {
 	case r := <-ch:
 		return r
-	case <-time.After(c08Timeout):
+	case <-hangAfter(c08Timeout):
 		return c08Loaded{outcome: "TIMEOUT"}
 	}
 }
